@@ -92,6 +92,11 @@ def systematic_cases(rng):
         # one access path through TWO arrays whose strides live in the buffer (each brings its own stride variables)
         arr(st("SGrid", [["k", I64], ["m", arr(F64, [None, None])]]), [None, None]),
         arr(st("SGrid3", [["m", arr(I32, [None, 2], [1, 0])], ["k", I64]]), [2, None], [1, 0]),
+        # a dynamically sized struct with several dynamic fields nested INLINE behind static fields (a pending constant
+        # offset when the by-offset fields are reached), also as item of an array and two levels deep
+        st("SOuterIn", [["n", I64], ["m", F64], ["inner", st("SInnerDyn", [["x", I64], ["u", arr(F64, [None])], ["v", arr(I32, [None])], ["w", {"k": "string"}]])], ["t", I32]]),
+        arr(st("SInnerDyn2", [["x", I32], ["u", {"k": "string"}], ["y", F64], ["v", arr(I64, [None])]]), [None]),
+        st("SOuter2", [["a", I32], ["mid", st("SMid2", [["b", I64], ["in2", st("SIn2", [["c", I32], ["p", arr(F64, [None])], ["q", arr(F64, [None])]])], ["e", F64]])]]),
         st("SRefHold", [["n", I64], ["r", {"k": "ref", "target": arr(F64, [None])}], ["q", {"k": "ref", "target": arr(I32, [None])}]]),
         # 3-D arrays of variable-size items under the two cyclic axis orders (not their own inverse), not cubic
         arr({"k": "string"}, [2, 3, None], [1, 2, 0]), arr(arr(F64, [None]), [None, 3, 2], [2, 0, 1]),
